@@ -844,8 +844,20 @@ def build_repeat_item(rng):
         seq.append(bname)
     order = [rng.randrange(n_blocks) for _ in range(rng.choice([rng.randint(2, 5), rng.randint(4, 7)]))]
     # now and then two consecutive blocks are joined by a zero-order edge: no bond may form across it
-    base = "{" + "".join("[#%s]%s" % (seq[k], "." if (pos < len(order) - 1 and rng.random() < 0.15) else "")
-                         for pos, k in enumerate(order)) + "}"
+    if rng.random() < 0.4:
+        # consecutive equal blocks written with the expansion operator
+        parts = []
+        pos = 0
+        while pos < len(order):
+            run = 1
+            while pos + run < len(order) and order[pos + run] == order[pos]:
+                run += 1
+            parts.append("[#%s]%s" % (seq[order[pos]], "|%d" % run if run > 1 else ""))
+            pos += run
+        base = "{" + "".join(parts) + "}"
+    else:
+        base = "{" + "".join("[#%s]%s" % (seq[k], "." if (pos < len(order) - 1 and rng.random() < 0.15) else "")
+                             for pos, k in enumerate(order)) + "}"
     b1 = "{" + ",".join("#%s=%s" % d for d in block_defs) + "}"
     b2 = "{" + ",".join("#%s=%s" % m for m in monos) + "}"
     perm1 = list(range(len(block_defs)))
